@@ -270,6 +270,21 @@ fn build(seed: u64, profile: &ConcProfile, base: &std::path::Path) -> Result<Bui
     }
     // Not the object bytes: certificate serial numbers come from OpenSSL's
     // generator, which cannot be re-seeded within a process.
+    if profile.with_scheduler {
+        // Maintenance that rewrites every CA's object set while requests
+        // change it: a forced re-publication from an API thread, and/or the
+        // recurring re-publication task falling due on the scheduler.
+        if op_rng.chance(1, 2) {
+            let t = op_rng.usize(thread_ops.len());
+            let pos = op_rng.usize(thread_ops[t].len() + 1);
+            thread_ops[t].insert(pos, Op::RepublishAll {
+                inst: 0, force: op_rng.chance(1, 2),
+            });
+        }
+        if op_rng.chance(1, 2) {
+            runner.world.advance(600);
+        }
+    }
     let digest = crate::util::sha256_hex(format!(
         "{:?}{:?}{}", versions(&runner), runner.results,
         crate::cuts::norm_state(&runner)
